@@ -178,6 +178,28 @@ def main(tier, seed):
                         rep.append("apply R " + a[3:]); base.cmd("apply R " + a[3:])
                         rep += ["get R %d" % i, "info R"]
                 rep += ["drop R", "open R RD", "info R"] + ["get R %d" % i for i in range(length)]
+                base.cmd("drop R"); base.cmd("open R RD cache=off")
+                # the reopened replica (cold cache, nodes only in the store) is sent ALTERED proofs, which are refused in
+                # every configuration and must leave no trace in any of them: the follow-up queries, a second altered
+                # proof asking for no nodes, and the honest proof answer the same everywhere
+                rl = int(base.cmd("info R").split(" ")[1])
+                for i in [x for x in range(rl) if base.cmd("has R %d" % x) == "ok 0"][:3]:
+                    nodes = base.cmd("missing R %d" % i).split(" ")[1]
+                    cmd = "prove W %d,%s - - -" % (i, nodes)
+                    a = base.cmd(cmd)
+                    if not a.startswith("ok ") or a == "ok none":
+                        continue
+                    pr = parse_proof(a[3:])
+                    if pr["block"] is None:
+                        continue
+                    bad = copy.deepcopy(pr); bad["block"]["value"] = flip_hex(bad["block"]["value"] or "00", r)
+                    bad0 = copy.deepcopy(bad); bad0["block"]["nodes"] = []
+                    seq = ["apply R " + proof_text(bad), "missing R %d" % i, "has R %d" % i, "apply R " + proof_text(bad0), "get R %d" % i,
+                           "missing R %d" % i, "apply R " + a[3:], "get R %d" % i, "info R"]
+                    for c in seq:
+                        base.cmd(c)
+                    rep += seq
+                    res.count("altered-proofs-on-reopened-replica")
             full = script + rep
             ref_ans, ref_files = run_config(base, full, "vec", "off")
             configs = [(base, "vec", "default"), (base, "vec", "tiny"), (base, "ram", "off"), (base, "ram", "tiny"),
